@@ -1,0 +1,572 @@
+//! Verification seams. Compiled only with `--cfg bmwill_anemo_verif`.
+//!
+//! Everything in here is additive: thin `pub` wrappers over crate-private items and a few
+//! registries (function-pointer style) that an external harness can fill in. Nothing in this
+//! module is reachable in a normal build.
+//!
+//! This file is a child module of `network::connection_manager` so that it can see that module's
+//! private items (`ActivePeers::add`, `DialBackoffState`, the tie-break function).
+
+use super::{ActivePeers, ConnectionManagerRequest, DialBackoffState};
+use crate::{
+    config::EndpointConfig,
+    connection::Connection,
+    endpoint::Endpoint,
+    types::{DisconnectReason, PeerEvent},
+    Config, ConnectionOrigin, Network, PeerId, Request, Response, Result,
+};
+use bytes::Bytes;
+use std::{
+    cell::RefCell,
+    convert::Infallible,
+    net::SocketAddr,
+    sync::{Arc, RwLock},
+    time::{Duration, Instant},
+};
+use tokio::io::{AsyncRead, AsyncWrite};
+use tokio_util::codec::{FramedRead, FramedWrite, LengthDelimitedCodec};
+use tower::util::{BoxCloneService, BoxService};
+
+// ---------------------------------------------------------------------------------------------
+// H1: socket injection
+// ---------------------------------------------------------------------------------------------
+
+/// Given the real, bound UDP socket, return the abstract socket and runtime quinn should use.
+pub trait SocketFactory: Send + Sync {
+    fn make(
+        &self,
+        real: std::net::UdpSocket,
+    ) -> std::io::Result<(Arc<dyn quinn::AsyncUdpSocket>, Arc<dyn quinn::Runtime>)>;
+}
+
+thread_local! {
+    static SOCKET_FACTORY: RefCell<Option<Arc<dyn SocketFactory>>> = const { RefCell::new(None) };
+    static TAP: RefCell<Option<Arc<dyn Fn(TapEvent) + Send + Sync>>> = const { RefCell::new(None) };
+    static JITTER: RefCell<Option<Duration>> = const { RefCell::new(None) };
+}
+
+/// Install (or clear) the socket factory for endpoints created on the current thread.
+pub fn set_socket_factory(factory: Option<Arc<dyn SocketFactory>>) {
+    SOCKET_FACTORY.with(|f| *f.borrow_mut() = factory);
+}
+
+pub(crate) fn socket_factory() -> Option<Arc<dyn SocketFactory>> {
+    SOCKET_FACTORY.with(|f| f.borrow().clone())
+}
+
+// ---------------------------------------------------------------------------------------------
+// H3/H4: lock shadowing, scheduling points and taps for `ActivePeers`
+// ---------------------------------------------------------------------------------------------
+
+/// Lets a controlled scheduler (loom) see the acquisitions of the `ActivePeers` lock and a
+/// scheduling point in `send_event`.
+pub trait LockHook: Send + Sync {
+    /// Called before the real read lock is taken; the token is dropped after it is released.
+    fn acquire_read(&self) -> Box<dyn std::any::Any>;
+    /// Called before the real write lock is taken; the token is dropped after it is released.
+    fn acquire_write(&self) -> Box<dyn std::any::Any>;
+    /// A scheduling point.
+    fn point(&self, tag: &'static str);
+}
+
+static LOCK_HOOK: RwLock<Option<Arc<dyn LockHook>>> = RwLock::new(None);
+
+pub fn set_lock_hook(hook: Option<Arc<dyn LockHook>>) {
+    *LOCK_HOOK.write().unwrap() = hook;
+}
+
+fn lock_hook() -> Option<Arc<dyn LockHook>> {
+    LOCK_HOOK.read().unwrap().clone()
+}
+
+pub(crate) fn point(tag: &'static str) {
+    if let Some(hook) = lock_hook() {
+        hook.point(tag);
+    }
+}
+
+pub(super) struct ReadGuard<'a> {
+    // Field order matters: the real guard is released before the shadow token.
+    real: std::sync::RwLockReadGuard<'a, super::ActivePeersInner>,
+    _token: Option<Box<dyn std::any::Any>>,
+}
+
+impl<'a> ReadGuard<'a> {
+    pub(super) fn new(lock: &'a RwLock<super::ActivePeersInner>) -> Self {
+        let _token = lock_hook().map(|h| h.acquire_read());
+        let real = lock.read().unwrap();
+        Self { real, _token }
+    }
+}
+
+impl std::ops::Deref for ReadGuard<'_> {
+    type Target = super::ActivePeersInner;
+    fn deref(&self) -> &Self::Target {
+        &self.real
+    }
+}
+
+pub(super) struct WriteGuard<'a> {
+    real: std::sync::RwLockWriteGuard<'a, super::ActivePeersInner>,
+    _token: Option<Box<dyn std::any::Any>>,
+}
+
+impl<'a> WriteGuard<'a> {
+    pub(super) fn new(lock: &'a RwLock<super::ActivePeersInner>) -> Self {
+        let _token = lock_hook().map(|h| h.acquire_write());
+        let real = lock.write().unwrap();
+        Self { real, _token }
+    }
+}
+
+impl std::ops::Deref for WriteGuard<'_> {
+    type Target = super::ActivePeersInner;
+    fn deref(&self) -> &Self::Target {
+        &self.real
+    }
+}
+
+impl std::ops::DerefMut for WriteGuard<'_> {
+    fn deref_mut(&mut self) -> &mut Self::Target {
+        &mut self.real
+    }
+}
+
+/// What the `ActivePeers` registry was asked to do / announced, in program order.
+#[derive(Clone, Debug, PartialEq, Eq)]
+pub enum TapEvent {
+    AddCall {
+        own: PeerId,
+        peer: PeerId,
+        origin: ConnectionOrigin,
+        stable_id: usize,
+    },
+    RemoveCall {
+        peer: PeerId,
+    },
+    RemoveIdCall {
+        peer: PeerId,
+        stable_id: usize,
+        reason: DisconnectReason,
+    },
+    Event(PeerEvent),
+}
+
+/// Install (or clear) a tap for the current thread.
+pub fn set_tap(tap: Option<Arc<dyn Fn(TapEvent) + Send + Sync>>) {
+    TAP.with(|t| *t.borrow_mut() = tap);
+}
+
+pub(crate) fn tap(event: impl FnOnce() -> TapEvent) {
+    let tap = TAP.with(|t| t.borrow().clone());
+    if let Some(tap) = tap {
+        tap(event());
+    }
+}
+
+pub(crate) fn tap_add(own: &PeerId, connection: &Connection) {
+    tap(|| TapEvent::AddCall {
+        own: *own,
+        peer: connection.peer_id(),
+        origin: connection.origin(),
+        stable_id: connection.stable_id(),
+    });
+}
+
+// ---------------------------------------------------------------------------------------------
+// H6: tick jitter
+// ---------------------------------------------------------------------------------------------
+
+/// Override the random jitter added to the connectivity-check interval of connection managers
+/// started on the current thread.
+pub fn set_jitter_override(jitter: Option<Duration>) {
+    JITTER.with(|j| *j.borrow_mut() = jitter);
+}
+
+pub(crate) fn jitter_override() -> Option<Duration> {
+    JITTER.with(|j| *j.borrow())
+}
+
+// ---------------------------------------------------------------------------------------------
+// H5: emulate "the runtime cancelled these tasks while the manager was still being polled"
+// ---------------------------------------------------------------------------------------------
+
+/// Ask the connection manager of `network` to abort all of its connection-handler tasks.
+pub async fn abort_connection_handlers(network: &Network) -> bool {
+    network
+        .0
+        .connection_manager_handle
+        .send(ConnectionManagerRequest::VerifAbortHandlers)
+        .await
+        .is_ok()
+}
+
+/// Ask the connection manager of `network` to abort all of its pending-connection tasks.
+pub async fn abort_pending_connections(network: &Network) -> bool {
+    network
+        .0
+        .connection_manager_handle
+        .send(ConnectionManagerRequest::VerifAbortPending)
+        .await
+        .is_ok()
+}
+
+// ---------------------------------------------------------------------------------------------
+// H2: wrappers
+// ---------------------------------------------------------------------------------------------
+
+pub mod wire {
+    use super::*;
+    use crate::network::wire as w;
+    use crate::types::Version;
+
+    pub fn frame_codec(config: &Config) -> LengthDelimitedCodec {
+        w::network_message_frame_codec(config)
+    }
+
+    pub async fn read_version_frame<T: AsyncRead + Unpin>(recv: &mut T) -> Result<Version> {
+        w::read_version_frame(recv).await
+    }
+
+    pub async fn write_version_frame<T: AsyncWrite + Unpin>(
+        send: &mut T,
+        version: Version,
+    ) -> Result<()> {
+        w::write_version_frame(send, version).await
+    }
+
+    pub async fn write_request<T: AsyncWrite + Unpin>(
+        send: &mut T,
+        config: &Config,
+        request: Request<Bytes>,
+    ) -> Result<()> {
+        let mut framed = FramedWrite::new(send, frame_codec(config));
+        w::write_request(&mut framed, request).await
+    }
+
+    pub async fn write_response<T: AsyncWrite + Unpin>(
+        send: &mut T,
+        config: &Config,
+        response: Response<Bytes>,
+    ) -> Result<()> {
+        let mut framed = FramedWrite::new(send, frame_codec(config));
+        w::write_response(&mut framed, response).await
+    }
+
+    pub async fn read_request<T: AsyncRead + Unpin>(
+        recv: &mut T,
+        config: &Config,
+    ) -> Result<Request<Bytes>> {
+        let mut framed = FramedRead::new(recv, frame_codec(config));
+        w::read_request(&mut framed).await
+    }
+
+    pub async fn read_response<T: AsyncRead + Unpin>(
+        recv: &mut T,
+        config: &Config,
+    ) -> Result<Response<Bytes>> {
+        let mut framed = FramedRead::new(recv, frame_codec(config));
+        w::read_response(&mut framed).await
+    }
+}
+
+pub mod crypto {
+    use crate::crypto::{CertVerifier, ExpectedCertVerifier};
+    use crate::PeerId;
+    use rustls::client::danger::ServerCertVerifier;
+    use rustls::pki_types::{CertificateDer, ServerName, UnixTime};
+    use rustls::server::danger::ClientCertVerifier;
+
+    /// Which of the three verifier implementations to exercise.
+    #[derive(Clone, Debug)]
+    pub enum Which {
+        Client,
+        Server,
+        ExpectedServer(PeerId),
+    }
+
+    pub fn peer_id_from_certificate(cert: &CertificateDer) -> Result<PeerId, rustls::Error> {
+        crate::crypto::peer_id_from_certificate(cert)
+    }
+
+    pub fn verify_client_cert(
+        server_names: &[String],
+        end_entity: &CertificateDer,
+        intermediates: &[CertificateDer],
+        now: UnixTime,
+    ) -> Result<(), rustls::Error> {
+        CertVerifier {
+            server_names: server_names.to_vec(),
+        }
+        .verify_client_cert(end_entity, intermediates, now)
+        .map(|_| ())
+    }
+
+    pub fn verify_server_cert(
+        server_names: &[String],
+        expected: Option<PeerId>,
+        end_entity: &CertificateDer,
+        intermediates: &[CertificateDer],
+        server_name: &ServerName,
+        now: UnixTime,
+    ) -> Result<(), rustls::Error> {
+        let base = CertVerifier {
+            server_names: server_names.to_vec(),
+        };
+        match expected {
+            None => base.verify_server_cert(end_entity, intermediates, server_name, &[], now),
+            Some(peer_id) => ExpectedCertVerifier(base, peer_id).verify_server_cert(
+                end_entity,
+                intermediates,
+                server_name,
+                &[],
+                now,
+            ),
+        }
+        .map(|_| ())
+    }
+
+    pub fn verify_tls13_signature(
+        which: &Which,
+        message: &[u8],
+        cert: &CertificateDer,
+        dss: &rustls::DigitallySignedStruct,
+    ) -> Result<(), rustls::Error> {
+        let base = CertVerifier {
+            server_names: vec![],
+        };
+        match which {
+            Which::Client => ClientCertVerifier::verify_tls13_signature(&base, message, cert, dss),
+            Which::Server => ServerCertVerifier::verify_tls13_signature(&base, message, cert, dss),
+            Which::ExpectedServer(p) => {
+                ExpectedCertVerifier(base, *p).verify_tls13_signature(message, cert, dss)
+            }
+        }
+        .map(|_| ())
+    }
+
+    pub fn verify_tls12_signature(
+        which: &Which,
+        message: &[u8],
+        cert: &CertificateDer,
+        dss: &rustls::DigitallySignedStruct,
+    ) -> Result<(), rustls::Error> {
+        let base = CertVerifier {
+            server_names: vec![],
+        };
+        match which {
+            Which::Client => ClientCertVerifier::verify_tls12_signature(&base, message, cert, dss),
+            Which::Server => ServerCertVerifier::verify_tls12_signature(&base, message, cert, dss),
+            Which::ExpectedServer(p) => {
+                ExpectedCertVerifier(base, *p).verify_tls12_signature(message, cert, dss)
+            }
+        }
+        .map(|_| ())
+    }
+
+    pub fn supported_verify_schemes(which: &Which) -> Vec<rustls::SignatureScheme> {
+        let base = CertVerifier {
+            server_names: vec![],
+        };
+        match which {
+            Which::Client => ClientCertVerifier::supported_verify_schemes(&base),
+            Which::Server => ServerCertVerifier::supported_verify_schemes(&base),
+            Which::ExpectedServer(p) => {
+                ExpectedCertVerifier(base, *p).supported_verify_schemes()
+            }
+        }
+    }
+
+    pub fn client_auth_mandatory() -> bool {
+        let base = CertVerifier {
+            server_names: vec![],
+        };
+        base.offer_client_auth() && base.client_auth_mandatory()
+    }
+}
+
+/// The certificate (DER) a network with this key presents under `server_name`.
+pub fn certificate_for(private_key: [u8; 32], server_name: &str) -> Result<Vec<u8>> {
+    let config = EndpointConfig::builder()
+        .private_key(private_key)
+        .server_name(server_name)
+        .build()?;
+    Ok(config.verif_client_certificate().as_ref().to_vec())
+}
+
+/// A clonable handle on a real connection.
+#[derive(Clone)]
+pub struct VConnection(pub(crate) Connection);
+
+impl VConnection {
+    pub fn peer_id(&self) -> PeerId {
+        self.0.peer_id()
+    }
+    pub fn origin(&self) -> ConnectionOrigin {
+        self.0.origin()
+    }
+    pub fn stable_id(&self) -> usize {
+        self.0.stable_id()
+    }
+    pub fn close(&self) {
+        self.0.close()
+    }
+    /// `Some(reason)` once the connection has been closed locally or is known to be lost.
+    pub fn close_reason(&self) -> Option<DisconnectReason> {
+        self.0
+            .verif_close_reason()
+            .map(|e| DisconnectReason::from_quinn_error(&e))
+    }
+    /// Resolves when the connection is closed for any reason.
+    pub async fn closed(&self) -> DisconnectReason {
+        DisconnectReason::from_quinn_error(&self.0.verif_closed().await)
+    }
+}
+
+/// A bare anemo endpoint (no connection manager).
+#[derive(Clone)]
+pub struct VEndpoint(Arc<Endpoint>);
+
+impl VEndpoint {
+    pub fn new(
+        private_key: [u8; 32],
+        server_name: &str,
+        alternate_server_name: Option<&str>,
+        config: &Config,
+        socket: std::net::UdpSocket,
+    ) -> Result<Self> {
+        let endpoint_config = EndpointConfig::builder()
+            .transport_config(config.transport_config())
+            .private_key(private_key)
+            .server_name(server_name)
+            .alternate_server_name(alternate_server_name)
+            .build()?;
+        Ok(Self(Arc::new(Endpoint::new(endpoint_config, socket)?)))
+    }
+    pub fn peer_id(&self) -> PeerId {
+        self.0.peer_id()
+    }
+    pub fn local_addr(&self) -> SocketAddr {
+        self.0.local_addr()
+    }
+    pub fn close(&self) {
+        self.0.close()
+    }
+    /// Dial, complete the TLS handshake (no anemo acknowledgement yet).
+    pub async fn connect(
+        &self,
+        address: SocketAddr,
+        expected: Option<PeerId>,
+    ) -> Result<VConnection> {
+        let connecting = match expected {
+            Some(peer_id) => self.0.connect_with_expected_peer_id(address, peer_id),
+            None => self.0.connect(address),
+        }?;
+        connecting.await.map(VConnection)
+    }
+    /// Accept the next inbound connection and complete its TLS handshake.
+    pub async fn accept(&self) -> Option<Result<VConnection>> {
+        let connecting = self.0.accept().await?;
+        Some(connecting.await.map(VConnection))
+    }
+    /// The anemo acknowledgement exchange.
+    pub async fn handshake(connection: VConnection) -> Result<VConnection> {
+        crate::network::wire::handshake(connection.0)
+            .await
+            .map(VConnection)
+    }
+}
+
+/// The registry of established connections, driven directly.
+#[derive(Clone)]
+pub struct VActivePeers(ActivePeers);
+
+impl VActivePeers {
+    pub fn new(channel_size: usize) -> Self {
+        Self(ActivePeers::new(channel_size))
+    }
+    /// Returns true if the connection was registered (false: rejected and closed).
+    pub fn add(&self, own_peer_id: &PeerId, connection: &VConnection) -> bool {
+        self.0.add(own_peer_id, connection.0.clone()).is_some()
+    }
+    pub fn remove(&self, peer_id: &PeerId, reason: DisconnectReason) {
+        self.0.remove(peer_id, reason)
+    }
+    pub fn remove_with_stable_id(
+        &self,
+        peer_id: PeerId,
+        stable_id: usize,
+        reason: DisconnectReason,
+    ) {
+        self.0.remove_with_stable_id(peer_id, stable_id, reason)
+    }
+    pub fn subscribe(&self) -> (tokio::sync::broadcast::Receiver<PeerEvent>, Vec<PeerId>) {
+        self.0.subscribe()
+    }
+    pub fn peers(&self) -> Vec<PeerId> {
+        self.0.peers()
+    }
+    pub fn get(&self, peer_id: &PeerId) -> Option<VConnection> {
+        self.0.get(peer_id).map(VConnection)
+    }
+    pub fn len(&self) -> usize {
+        self.0.len()
+    }
+    pub fn is_empty(&self) -> bool {
+        self.0.len() == 0
+    }
+}
+
+pub fn simultaneous_dial_tie_breaking(
+    own_peer_id: &PeerId,
+    remote_peer_id: &PeerId,
+    existing_origin: ConnectionOrigin,
+    new_origin: ConnectionOrigin,
+) -> bool {
+    super::ActivePeersInner::simultaneous_dial_tie_breaking(
+        own_peer_id,
+        remote_peer_id,
+        existing_origin,
+        new_origin,
+    )
+}
+
+/// `DialBackoffState` driven directly: (earliest next attempt, attempts so far).
+pub struct VBackoff(DialBackoffState);
+
+impl VBackoff {
+    pub fn new(now: Instant, step: Duration, max: Duration) -> Self {
+        Self(DialBackoffState::new(now, step, max))
+    }
+    pub fn update(&mut self, now: Instant, step: Duration, max: Duration) {
+        self.0.update(now, step, max)
+    }
+    pub fn backoff(&self) -> Instant {
+        self.0.backoff
+    }
+    pub fn attempts(&self) -> usize {
+        self.0.attempts
+    }
+}
+
+/// The inbound (serving side) timeout layer applied to `service`.
+pub fn inbound_timeout(
+    service: BoxCloneService<Request<Bytes>, Response<Bytes>, Infallible>,
+    default_timeout: Option<Duration>,
+) -> BoxCloneService<Request<Bytes>, Response<Bytes>, Infallible> {
+    use tower::{Layer, ServiceExt};
+    crate::middleware::timeout::inbound::TimeoutLayer::new(default_timeout)
+        .layer(service)
+        .boxed_clone()
+}
+
+/// The outbound (calling side) timeout layer applied to `service`.
+pub fn outbound_timeout(
+    service: BoxService<Request<Bytes>, Response<Bytes>, crate::Error>,
+    default_timeout: Option<Duration>,
+) -> BoxService<Request<Bytes>, Response<Bytes>, crate::Error> {
+    use tower::{Layer, ServiceExt};
+    crate::middleware::timeout::outbound::TimeoutLayer::new(default_timeout)
+        .layer(service)
+        .boxed()
+}
